@@ -2,7 +2,10 @@
 // the real gopar operations for the property checks.
 package scen
 
-import "fmt"
+import (
+	"fmt"
+	"hash/crc32"
+)
 
 // SplitMix is a tiny deterministic PRNG (data bytes only; never used to
 // choose which structures are explored).
@@ -60,6 +63,45 @@ func Content(class string, seed int64, fileIdx, n, sliceSize int) []byte {
 			copy(b[sliceSize:2*sliceSize], b[0:sliceSize])
 			for i, x := range []byte{0x41, 0x06, 0x71, 0xDB, 0x01} {
 				b[sliceSize+1+i] ^= x
+			}
+		}
+		return b
+	case "lookalike":
+		// every file of the set starts with the SAME first 16 KiB (and files of equal length then have the same
+		// 16k hash and length: anything keyed by those two mistakes one file for the other); the rest is distinct
+		b := Content("uniq", seed, fileIdx, n, sliceSize)
+		common := Content("uniq", seed, 9000, n, sliceSize)
+		k := 16384
+		if k > n {
+			k = n
+		}
+		copy(b[:k], common[:k])
+		return b
+	case "crclow16":
+		// slices 1..256 of the file (each of sliceSize >= 8 bytes) are pairwise different but their CRC-32s agree in
+		// the low 16 bits - exactly 256 of them; every other slice of the file has different low bits
+		b := Content("uniq", seed, fileIdx, n, sliceSize)
+		if sliceSize < 8 || n < 258*sliceSize {
+			return b
+		}
+		target := crc32.ChecksumIEEE(b[sliceSize:2*sliceSize]) & 0xffff
+		for k := 2; k <= 256; k++ {
+			sl := b[k*sliceSize : (k+1)*sliceSize]
+			for v := uint32(0); ; v++ {
+				// vary three bytes within the 0x01..0x7f alphabet
+				sl[0], sl[1], sl[2] = byte(1+v%127), byte(1+(v/127)%127), byte(1+(v/16129)%127)
+				if crc32.ChecksumIEEE(sl)&0xffff == target {
+					break
+				}
+			}
+		}
+		for k := 0; (k+1)*sliceSize <= n; k++ {
+			if k >= 1 && k <= 256 {
+				continue
+			}
+			sl := b[k*sliceSize : (k+1)*sliceSize]
+			for crc32.ChecksumIEEE(sl)&0xffff == target {
+				sl[0] = 1 + sl[0]%126
 			}
 		}
 		return b
